@@ -10,6 +10,7 @@ from vlib import targets, watch
 from vlib.targets import norm_exc
 
 PROPERTY = 'C15'
+EVALUATIONS_KEYS = ['chains', 'ensembles', 'process_chains']
 LEVEL = 'exploration'
 RULE = ('picklable exception classes (32: builtins with special constructors, OSError errno subclasses, custom __init__/__reduce__/keyword-only, attributes, '
         'chained causes, ExceptionGroup, BaseExceptions) x traceback depth 1-40 x hops 1-6 x hop pattern {forward only, re-raise at every hop, alternating, '
